@@ -66,7 +66,7 @@ def hist_to_scenario(hist, sid, pool, nf, diff, reuse_sites=False):
         elif a == "Install":
             ninst += 1
             st = {"op": "install", "f": int(h["f"][1:]), "kind": h["kind"], "fake": h["fake"], "gate": h["gate"],
-                  "fault": h["fault"], "n": h["n"], "site": 0}
+                  "fault": h["fault"], "n": h["n"], "site": 0, "caught": bool(h.get("caught", False))}
             if h["n"] >= 0:
                 site += 1
                 st["site"] = h["site"] if reuse_sites else site
@@ -216,6 +216,21 @@ def compare_replay(hist, events, nf):
     return bad
 
 
+def caught_behaviours(run, tier, tag):
+    """behaviours of MC_LifecycleApi_cr in which the caller catches the panic of at least one refused or failed installation
+    (signature gate, mmap, mprotect) and goes on using the same injector: further installations, calls, a normal scope exit"""
+    hc, gc = gen_behaviours("MC_LifecycleApi_cr", timeout=3000)
+    run.states += gc["distinct"]
+    run.transitions += gc["generated"]
+    hc = [h for h in hc if any(x["act"] == "Install" and x.get("caught") for x in h)]
+    rnd = vlib.rnd("caught-" + tag)
+    n = 500 if tier == "quick" else 5000
+    if len(hc) > n:
+        hc = rnd.sample(hc, n)
+    run.extra["caught_refusal_histories"] = len(hc)
+    return hc
+
+
 def gen_behaviours(cfg, tier_seed_sim=None, timeout=900):
     r = tlc.check("MC_LifecycleApi", cfg, workers=1, timeout=timeout, coverage=False)
     if r["violation"]:
@@ -292,6 +307,8 @@ def lifecycle_check(prop, tier):
         hists += hr
         run.states += gr2["distinct"]
         run.transitions += gr2["generated"]
+    if prop in ("C02", "C12", "C05"):
+        hists += caught_behaviours(run, tier, prop)
     if prop in ("C02", "C03", "C12", "C17", "C05"):
         # longer histories over a smaller alphabet (three installs: A,B,A patterns)
         h3, g3 = gen_behaviours("MC_LifecycleApi_q3" if tier == "quick" else "MC_LifecycleApi_t3", timeout=3000)
@@ -1226,6 +1243,9 @@ def times_check(prop, tier):
         hi = [h for k, h in enumerate(hi) if k % 3 == vlib.seed() % 3]
     hists += hi
     run.extra["two_counted_fakes_histories"] = len(hi)
+    # a refused or failed installation whose panic the caller catches: the lifetime goes on, every counted fake installed before
+    # or after it still gets its verdict at the scope exit
+    hists += caught_behaviours(run, tier, "C06")
     vlib.build_harness()
     nf = 2 if any(x.get("f") == "f2" for h in hists for x in h) else 1
     scen = [hist_to_scenario(h, i, "rust", nf, diff=False) for i, h in enumerate(hists, 1)]
@@ -1410,6 +1430,8 @@ def lock_check(prop, tier):
     # (d) the guard is held at every OS-level step of install and drop
     hists, gr = gen_behaviours("MC_LifecycleApi_q", timeout=3000)
     hists = hists[::3]
+    # ... also after the caller caught the panic of a refused installation and went on
+    hists += caught_behaviours(run, tier, "C04")[::3]
     scen2 = [hist_to_scenario(h, i, "rust", 2, diff=False) for i, h in enumerate(hists, 1)]
     # one thread using both kinds of guard one after the other: preventer, then the injector lifetime(s), then a preventer
     for sc in scen2[::2]:
